@@ -86,6 +86,9 @@ class TypeScriptMagicNumberAnalyzer(TypeScriptBaseAnalyzer):  # thailint: ignore
         """
         text = self.extract_node_text(node)
         try:
+            # Radix-prefixed literals are integers even when a hex digit is "e"
+            if text[:2].lower() in ("0x", "0o", "0b"):
+                return int(text, 0)
             # Try int first
             if "." not in text and "e" not in text.lower():
                 return int(text, 0)  # Handles hex, octal, binary
